@@ -263,6 +263,9 @@ def run(ctx):
     with ctx.rule("C02.R8", "T2", "a map uplink re-queues itself while it has data", floor=1) as r:
         uplinks.requeue_while_data(r, ctx, kinds=("Map",))
 
+    with ctx.rule("C02.R9", "T3", "per-remote queue: queued flag <=> queue entry (a map lane is never left unqueued with pending operations)", floor=20) as r:
+        uplinks.queued_flag_discipline(r, ctx)
+
 
 def is_ret_call(body, c):
     return c.dest[0] == 0 and not c.dest[1]
